@@ -77,6 +77,8 @@ let ts_str z = Printf.sprintf "%.9f" (float_of_z z /. 1e9)
 (* ENABLE_TRANSFORM build: per-instance rigid motion (Proofs/Transform.v: roll about x, pitch about y, yaw about z, then the
    translation), evaluated in double from the binary32 parameter values of the TF line *)
 let tfs : (int, float array) Hashtbl.t = Hashtbl.create 4
+(* daylight periods of the process time zone (TZD directive) *)
+let g_dst : (z * z) list ref = ref []
 let apply_tf i (x, y, z) =
   match Hashtbl.find_opt tfs i with
   | None -> (x, y, z)
@@ -176,8 +178,15 @@ let kernel toks =
         | _ -> "?") in
     pr "k parse_utc %s | gen %s\n" (z_to_string (parse_utc b Z0)) g
   | ["create_utc"; us] -> pr "k create_utc %s | gen %s\n" (hex_of_bytes (create_utc (zi us))) (hex_of_bytes (fn_createTimeUTCWithUs (zi us)))
-  | ["parse_ymd"; tz; hex] -> pr "k parse_ymd %s\n" (z_to_string (parse_ymd (zi tz) (bytes_of_hex hex) Z0))
-  | ["create_ymd"; tz; us] -> pr "k create_ymd %s\n" (hex_of_bytes (create_ymd (zi tz) (zi us)))
+  | ["parse_ymd"; tz; hex] -> pr "k parse_ymd %s\n" (z_to_string (parse_ymd_z (zi tz) !g_dst (bytes_of_hex hex) Z0))
+  | ["create_ymd"; tz; us] -> pr "k create_ymd %s\n" (hex_of_bytes (create_ymd_z (zi tz) !g_dst (zi us)))
+  | "parse_ymdz" :: tz :: hex :: _rule :: _n :: ab ->
+    (* the same under a zone with daylight saving: its rule (for glibc) and the daylight periods around the instant (for the model) *)
+    let rec pairs = function a :: b :: r -> (zi a, zi b) :: pairs r | _ -> [] in
+    pr "k parse_ymd %s\n" (z_to_string (parse_ymd_z (zi tz) (pairs ab) (bytes_of_hex hex) Z0))
+  | "create_ymdz" :: tz :: us :: _rule :: _n :: ab ->
+    let rec pairs = function a :: b :: r -> (zi a, zi b) :: pairs r | _ -> [] in
+    pr "k create_ymd %s\n" (hex_of_bytes (create_ymd_z (zi tz) (pairs ab) (zi us)))
   | ["crc"; hex] -> pr "k crc %s\n" (z_to_string (crc_calc g_crc_table (bytes_of_hex hex) Z0 true))
   | ["crcok"; hex] -> pr "k crcok %d\n" (bi (crc_ok g_crc_table (bytes_of_hex hex)))
   | ["bpf"; vlan; port; hex] ->
@@ -230,14 +239,18 @@ let () =
         | "S" :: name ->
           pr "S %s\n" (String.concat " " name);
           pend.cfgs <- []; pend.answers <- []; pend.inputs <- []; pend.queued <- []; w := world0; Hashtbl.reset descs; Hashtbl.reset life; Hashtbl.reset tfs;
-          bl := { b_crc = false; b_difop_parse = false }
+          bl := { b_crc = false; b_difop_parse = false }; g_dst := []
+        | "TZD" :: _posix :: _n :: ab ->
+          (* the process time zone has daylight saving: its daylight periods [a, b) in UTC seconds (the harness sets TZ to the rule) *)
+          let rec pairs = function a :: b :: r -> (z_of_int (int_of_string a), z_of_int (int_of_string b)) :: pairs r | _ -> [] in
+          g_dst := pairs ab
         | ["B"; crc; parse] -> bl := { b_crc = bool_of crc; b_difop_parse = bool_of parse }
         | ["D"; i; ty; wait; dense; mode; angle; nblk; minb; maxb; st; en; lclock; tsfirst; pktcb; tz; user; tail] ->
           let zi s = z_of_int (int_of_string s) in
           let c = { c_wait_for_difop = bool_of wait; c_dense = bool_of dense; c_split_mode = zi mode; c_split_angle = zi angle; c_num_blks = zi nblk;
                     c_min_dist = dy_of_f32bits (int_of_string minb); c_max_dist = dy_of_f32bits (int_of_string maxb);
                     c_start_angle = zi st; c_end_angle = zi en; c_lidar_clock = bool_of lclock; c_ts_first = bool_of tsfirst;
-                    c_pkt_cb = bool_of pktcb; c_tz = zi tz; c_user = zi user; c_tail = zi tail; c_from_file = false } in
+                    c_pkt_cb = bool_of pktcb; c_tz = zi tz; c_user = zi user; c_tail = zi tail; c_from_file = false; c_dst = !g_dst } in
           pend.cfgs <- (int_of_string i, (desc_of_code (int_of_string ty), c)) :: pend.cfgs
         | ["CF"; i] ->
           let i = int_of_string i in
